@@ -11,16 +11,22 @@ open C12Model
 let key_s (k : key) = Printf.sprintf "%c%d" (Char.chr (97 + int_of_nat k.k_flow)) (if k.k_dir then 1 else 0)
 
 let parse_pkt (s : string) : packet =
-  match split_on '.' s with
+  let parts = split_on '.' s in
+  let parts, ts = (match parts with [a; b; c; d] -> [a; b; c], int_of_string d | _ -> parts, 0) in
+  match parts with
   | [hd; sq; hx] when String.length hd >= 3 ->
     let flow = Char.code hd.[0] - 97 and dir = hd.[1] = '1' in
     let fl = String.sub hd 2 (String.length hd - 2) in
     { p_key = { k_flow = nat_of_int flow; k_dir = dir };
       p_syn = String.contains fl 'S'; p_fin = String.contains fl 'F';
-      p_seq = z_of_int (int_of_string sq); p_bytes = bytes_of_hex hx }
+      p_seq = z_of_int (int_of_string sq); p_bytes = bytes_of_hex hx; p_ts = z_of_int ts }
   | _ -> failwith ("c12 packet: " ^ s)
 
-let parse_op (s : string) : op = if s = "fl" then OFlush else OPkt (parse_pkt s)
+let parse_op (s : string) : op =
+  if s = "fl" then OFlush None
+  else if String.length s > 2 && String.sub s 0 2 = "fo" then
+    OFlush (Some (z_of_int (int_of_string (String.sub s 2 (String.length s - 2)))))
+  else OPkt (parse_pkt s)
 
 let chunk_s (c : chunk) =
   Printf.sprintf "%d/%s/%s" (int_of_z c.ch_skip) (hex_of_bytes c.ch_bytes)
@@ -41,10 +47,12 @@ let tag_s = function
   | TgRaceLost -> "lookup-race-lost" | TgBothDir -> "both-directions-race"
   | TgCloseLL -> "close-between-lookup-and-lock" | TgRecycle -> "recycle"
   | TgStale -> "stale-pointer-processed" | TgRetry -> "retry" | TgFlushStale -> "flush-stale"
+  | TgTrail -> "trailing-remove" | TgAgeFlush -> "age-flush"
 
-type 'a inst = { cinit : 'a; cclosed : 'a -> bool;
+type 'a inst = { cinit : 'a; cclosed : 'a -> bool; creset : packet -> 'a;
                  proc : 'a -> bool -> packet -> ('a * cevent list) * bool;
-                 fl : 'a -> ('a * cevent list) * bool;
+                 fl : BinNums.coq_Z option -> 'a -> ('a * cevent list) * bool;
+                 trail : BinNums.coq_Z option -> 'a -> bool;
                  unsup : 'a -> bool }
 
 let final_line (i : 'a inst) (s : 'a state) : string =
@@ -89,12 +97,12 @@ let explore (i : 'a inst) (g : config) (progs : op list list) (maxstates : int) 
       let nt = Stdlib.List.length s.s_thr in
       let any = ref false in
       for t = 0 to nt - 1 do
-        match exec i.cinit i.cclosed i.proc i.fl g s (nat_of_int t) with
+        match exec i.cinit i.cclosed i.creset i.proc i.fl i.trail g s (nat_of_int t) with
         | Some s' -> any := true; go s' (t :: sched) epi
         | None -> ()
       done;
       if not !any then begin
-        if all_done s && not epi then go (add_thread s [OFlush]) sched true
+        if all_done s && not epi then go (add_thread s [OFlush None]) sched true
         else begin
           incr finals;
           if all_done s && not (chk_complete_once_final s) then report "not-completed" sched
@@ -112,7 +120,7 @@ let run_inst (i : 'a inst) (g : config) (progs : op list list) (sched : int list
     (id : string) (out : out_channel) =
   if expl > 0 then explore i g progs expl out id
   else begin
-    let (s, raced) = run_case i.cinit i.cclosed i.proc i.fl g (nat_of_int 3000) progs (Stdlib.List.map nat_of_int sched) in
+    let (s, raced) = run_case i.cinit i.cclosed i.creset i.proc i.fl i.trail g (nat_of_int 3000) progs (Stdlib.List.map nat_of_int sched) in
     let evs = Stdlib.List.filter_map event_s (Stdlib.List.rev s.s_log) in
     let lines = evs @ [final_line i s] in
     Stdlib.List.iteri (fun k l -> Printf.fprintf out "%s\t%d\t%s\n" id k l) lines;
@@ -136,10 +144,10 @@ let run (id : string) (ops : string list) (out : out_channel) =
   let orig = (try Sys.getenv "C12_RSM_ORIG" = "1" with Not_found -> false) in
   match !pkg with
   | "t" ->
-    run_inst { cinit = tc_init; cclosed = tc_closed; proc = tcp_process; fl = tcp_flush; unsup = (fun _ -> false) }
+    run_inst { cinit = tc_init; cclosed = tc_closed; creset = tcp_reset; proc = tcp_process; fl = tcp_flush; trail = tcp_trail; unsup = (fun _ -> false) }
       cfg_tcp progs !sched !expl id out
   | "r" | "ro" ->
-    run_inst { cinit = rc_init; cclosed = rc_closed; proc = rsm_process; fl = rsm_flush; unsup = (fun st -> st.r_unsup) }
+    run_inst { cinit = rc_init; cclosed = rc_closed; creset = rsm_reset; proc = rsm_process; fl = rsm_flush; trail = rsm_trail; unsup = (fun st -> st.r_unsup) }
       (if orig || !pkg = "ro" then cfg_rsm_orig else cfg_rsm) progs !sched !expl id out
   | v -> failwith ("c12 pkg: " ^ v)
 
